@@ -104,11 +104,7 @@ def arrays_equal(V, name, X, Y):
     if X.shape != Y.shape:
         V.check(name + ':shape', False)
         return
-    conds = [x == y for x, y in zip(X.ravel().tolist(), Y.ravel().tolist())]
-    if not V.symbolic:
-        V.check(name, all(bool(c) for c in conds))
-    else:
-        V.check(name, And(*conds))
+    V.check_equal(name, X.ravel().tolist(), Y.ravel().tolist())
     # non-vacuity: count the dense elements that actually depend on the data
     V.result.covers.add(f"{name}:symbolic-elements={sum(1 for x in X.ravel().tolist() if has_sym(x))}")
 
